@@ -90,6 +90,14 @@ CanCases ==
                          x  == (n4 - 6 * y) \div 5
                          body == Rep(CanMsg(4, fd, 3), x) \o Rep(CanMsg(8, fd, 4), y) \o Set2(CanMsg(0, fd, 7), 0, "Can", "acf_msg_length", ql)
                      IN Wrap(udp, tscf, body, Len(body))) : ql \in {5, 6} }
+        \* a chain of well-formed messages that ends r bytes before the end of a (nearly) full-size datagram, followed by the first
+        \* r bytes of another CAN header: whatever is read of that header beyond its r bytes lies behind the receive buffer
+        \cup { Case("trailing-header-fragment-full-buffer", udp, fd, 0,
+                     LET n4 == (1500 - hl - r) \div 4
+                         y  == CHOOSE y \in 0..4 : (n4 - 6 * y) % 5 = 0
+                         x  == (n4 - 6 * y) \div 5
+                         body == Rep(CanMsg(4, fd, 3), x) \o Rep(CanMsg(8, fd, 4), y) \o Prefix(CanMsg(8, fd, 9), r)
+                     IN Wrap(udp, tscf, body, Len(body))) : r \in {1, 2, 3, 4, 8, 12, 15} }
     : tscf \in {0, 1} } : udp \in {0, 1}, fd \in {0, 1} }
 
 CvfCases ==
